@@ -33,12 +33,19 @@ class Check(BaseCheck):
                    'non-string arguments are outside the quantifier',
                    'the model computes bijective base-26 itself (hxmon/models/cells.py)')
 
+    NO_AMBIENT = ('cols',)
+
     def plan(self, tier, seed):
         specs = [{'campaign': 'sentinels'}]
         nsh = 16
         step = (NCOLS + nsh - 1) // nsh
         for i in range(nsh):
             specs.append({'campaign': 'cols', 'lo': i * step, 'hi': min(NCOLS, (i + 1) * step)})
+        # the same under an interpreter whose int <-> text limit the host has lifted (0) or lowered (640)
+        for lim in (0, 640):
+            specs.append({'campaign': 'rows', 'lo': 0, 'hi': 3000, 'seed': seed, 'extra': 1000, 'int_max_str_digits': lim})
+            specs.append({'campaign': 'labels', 'n': 3000, 'seed': seed, 'i': 'lim%d' % lim, 'int_max_str_digits': lim})
+            specs.append({'campaign': 'parser', 'n': 800, 'seed': seed, 'i': 'lim%d' % lim, 'int_max_str_digits': lim})
         if tier == 'quick':
             specs.append({'campaign': 'rows', 'lo': 0, 'hi': 20000, 'seed': seed, 'extra': 20000})
             for i in range(4):
@@ -104,6 +111,13 @@ class Check(BaseCheck):
         rnd = self.rng(spec)
         rows = list(range(spec['lo'], spec['hi']))
         rows += [rnd.choice([10 ** 6, 1048575, 1048576, 10 ** 9, 10 ** 20, rnd.randrange(10 ** 7), rnd.randrange(10 ** 30)]) for _ in range(spec['extra'])]
+        # 'and beyond': up to the longest row number the interpreter still reads (sys.get_int_max_str_digits(), which a host may have
+        # lowered, or lifted altogether) - one, two and three digits inside that edge
+        import sys
+        lim = sys.get_int_max_str_digits() if hasattr(sys, 'get_int_max_str_digits') else 0
+        for d in ([lim - 2, lim - 1, lim] if lim else [4300, 4301, 6000]):
+            rows.append(int('1' + '0' * (d - 1)) - 1 + rnd.choice([0, 0, 1, 7]) * (d > 4))
+            rec.cov('row_number_digits_at_the_interpreter_limit', (lim, d))
         for r in rows:
             rec.case(2)
             lab = hc.row_index_to_label(r)
